@@ -7,13 +7,15 @@
      activity a batch of stage k was handed to the HPC or a job of stage k was started
      summary  stage k's results.json: number of missing jobs
      pipeline pipeline.json was written: stage_num, is_complete, per-stage return codes (-1 = unset)
+     autoconfig stage k's auto-config command runs: the stage id in its environment, and what the pipeline status file it
+              is pointed to says at that moment (stage_num, per-stage return codes), its exit code
      fault    an injected fault (kill / failed command)
      end      the run is over *)
 EXTENDS Naturals, Integers, Sequences, FiniteSets, TLC
 
 PInit(S) ==
   [ pos |-> 0, viol |-> {}, vpos |-> [x \in {} |-> 0], cnt |-> [x \in {} |-> 0],
-    created |-> [k \in 1..S.n |-> 0], complete |-> [k \in 1..S.n |-> FALSE], missing |-> [k \in 1..S.n |-> -1],
+    created |-> [k \in 1..S.n |-> 0], configured |-> [k \in 1..S.n |-> 0], complete |-> [k \in 1..S.n |-> FALSE], missing |-> [k \in 1..S.n |-> -1],
     pstage |-> 0, pcomplete |-> FALSE, prcs |-> <<>>, faulty |-> FALSE ]
 
 Bump(m, c) == [m EXCEPT !.cnt = IF c \in DOMAIN @ THEN [@ EXCEPT ![c] = @ + 1] ELSE @ @@ (c :> 1)]
@@ -28,7 +30,7 @@ ExpectedRc(m, k) == IF m.missing[k] = 0 THEN 0 ELSE 1
 
 PStep(S, m0, e) ==
   LET m == [m0 EXCEPT !.pos = @ + 1]
-      inr == e.e \in {"create", "status", "activity", "summary"} => e.k \in 1..S.n
+      inr == e.e \in {"create", "status", "activity", "summary", "autoconfig"} => e.k \in 1..S.n
   IN
   IF ~inr THEN [m EXCEPT !.viol = @ \cup {"StageKnown"}]
   ELSE CASE e.e = "create" ->
@@ -53,6 +55,15 @@ PStep(S, m0, e) ==
              d == Check(c, "PipelineCompleteLast", e.complete, e.stage = S.n + 1 /\ \A k \in 1..S.n : m.complete[k])
              f == Check(d, "PipelineCompleteSticky", m.pcomplete, e.complete)
          IN [f EXCEPT !.pstage = e.stage, !.pcomplete = e.complete, !.prcs = e.rcs]
+    [] e.e = "autoconfig" ->
+         \* stage k is configured only after stage k-1 is complete, once, and what is recorded at that moment -- which the
+         \* command is given to read -- is what happened: current stage k, the return codes of the stages before it
+         LET a == Check(m, "StageAfterPrevComplete", TRUE, PrevComplete(m, e.k))
+             b == Check(a, "StageConfiguredOnce", TRUE, m.configured[e.k] = 0 /\ m.created[e.k] = 0)
+             c == Check(b, "CurrentStageRecorded", TRUE, e.envstage = e.k /\ e.stage = e.k /\ m.pstage = e.k)
+             d == Check(c, "ReturnCodesMatch", Len(e.rcs) = S.n,
+                        \A k \in 1..S.n : IF k < e.k THEN (m.missing[k] >= 0 /\ e.rcs[k] = ExpectedRc(m, k)) ELSE e.rcs[k] = -1)
+         IN [d EXCEPT !.configured[e.k] = @ + 1, !.faulty = @ \/ e.rc # 0]
     [] e.e = "fault" -> [m EXCEPT !.faulty = TRUE]
     [] e.e = "end" ->
          LET a == Check(m, "PipelineCompletes", ~m.faulty, m.pcomplete /\ \A k \in 1..S.n : m.created[k] = 1 /\ m.complete[k])
@@ -61,5 +72,5 @@ PStep(S, m0, e) ==
 
 C15Clauses == {"StageKnown", "StageAfterPrevComplete", "StageSubmittedOnce", "StagesInOrder", "CurrentStageRecorded",
                "ActivityInCreatedStage", "StageNumMonotone", "StageAdvancesAfterComplete", "ReturnCodesMatch",
-               "PipelineCompleteLast", "PipelineCompleteSticky", "PipelineCompletes"}
+               "PipelineCompleteLast", "PipelineCompleteSticky", "PipelineCompletes", "StageConfiguredOnce"}
 =============================================================================
